@@ -75,6 +75,33 @@ def run(cx: Cx):
                          "DiscreteWorld.__init__ sets _index_offset before super().__init__, which resets it to 0",
                          where=cx.where(dinit))
 
+    # coordinates and offsets are touched through comparisons and exact arithmetic only: a library function that converts to a C
+    # double first (math.isnan / isfinite / isclose / fmod, float()) raises OverflowError for a far out-of-range integer and rounds
+    # a large one - the move is refused or lands elsewhere
+    from sa.terms import term_symbols
+    n_fl = 0
+    for fq in (add_agent, move, move_to):
+        coords = {Sym(q) for q in fq.params[2:] + fq.kwonly}
+        hit = None
+        for p in cx.walker.paths(fq, WalkOptions(unroll=0, callee_raises=False)):
+            for e in p.events:
+                if e.kind != 'call':
+                    continue
+                nm = str(e.data.get('callee_name', ''))
+                if not ((nm.startswith('math.') and nm not in ('math.floor', 'math.ceil', 'math.trunc')) or nm == 'builtins.float'):
+                    continue
+                n_fl += 1
+                if any(coords & set(term_symbols(a)) for a in e.data.get('args', ())):
+                    hit = hit or (e, nm)
+        if hit:
+            cx.violation('R-GUARD', fq.qualname, 'coordinates-stay-exact',
+                         f"{fq.qualname} passes a coordinate / offset argument to {hit[1]}(), which converts it to a C double first: an "
+                         f"integer of magnitude >= 2**1024 raises OverflowError (the legal move is refused) and one above 2**53 is rounded",
+                         where=cx.where(fq, hit[0].line))
+    if not any(o.key.endswith('coordinates-stay-exact') for o in cx.violations()):
+        cx.ok('R-GUARD', f"placements and moves never force a coordinate through a C double ({n_fl} math / float call(s) examined)",
+              where=cx.where(move), function=move.qualname)
+
     # PositionComponent.__init__ stores its parameters
     for p in cx.walker.paths(pinit, WalkOptions(unroll=1)):
         for ax, _, _ in AXES:
